@@ -170,26 +170,32 @@ Print Assumptions C39_state_fields_match.
 Print Assumptions C39_access_match.
 Print Assumptions C39_gen_idle_spec.
 Print Assumptions C39_gen_shutting_down_spec.
-Print Assumptions C39_no_panic.
-Print Assumptions C39_retire_at_most_once.
-Print Assumptions C39_no_transition_after_done_breaks_idle.
-Print Assumptions C39_map_is_registered_unretired.
-Print Assumptions C39_await_gets_own_id.
-Print Assumptions C39_await_observes_own_id.
-Print Assumptions C39_call_ids_unique.
-Print Assumptions C39_response_never_changes.
-Print Assumptions C39_returned_call_retired_or_pending.
-Print Assumptions C39_every_call_retired_when_done.
-Print Assumptions C39_incoming_answered_at_most_once.
-Print Assumptions C39_answered_request_has_no_writer.
-Print Assumptions C39_counters_exact.
-Print Assumptions C39_done_only_when_idle_and_not_reading.
-Print Assumptions C39_done_is_stable.
-Print Assumptions C39_closed_once.
 Print Assumptions C39_close_progress.
 Print Assumptions C39_observation_keeps_measure.
-Print Assumptions C39_no_internal_deadlock.
-Print Assumptions C39_quiescent_is_done.
-Print Assumptions C39_all_calls_answered_at_quiescence.
+Print Assumptions C39_done_is_stable.
 Print Assumptions C39_acceptor_closure_complete.
 Print Assumptions C39_acceptor_writers_complete.
+
+(* The remaining theorems all rest on the same invariant proof (Proofs.C39.reachable_inv); Print Assumptions walks
+   that whole proof for each of them (about 1.5 s apiece), so they are printed as one bundle: the assumptions of the
+   tuple are the union of the assumptions of its components. *)
+Definition C39_invariant_theorems :=
+  (C39_no_panic,
+   C39_retire_at_most_once,
+   C39_no_transition_after_done_breaks_idle,
+   C39_map_is_registered_unretired,
+   C39_await_gets_own_id,
+   C39_await_observes_own_id,
+   C39_call_ids_unique,
+   C39_response_never_changes,
+   C39_returned_call_retired_or_pending,
+   C39_every_call_retired_when_done,
+   C39_incoming_answered_at_most_once,
+   C39_answered_request_has_no_writer,
+   C39_counters_exact,
+   C39_done_only_when_idle_and_not_reading,
+   C39_closed_once,
+   C39_no_internal_deadlock,
+   C39_quiescent_is_done,
+   C39_all_calls_answered_at_quiescence).
+Print Assumptions C39_invariant_theorems.
